@@ -354,6 +354,41 @@ def validate_translation(pid, tie, seed, scale=1):
                         diffs.append({"input": x, "translated_source": g[:300], "real_code": w[:300], "op": "from_rh_vector"})
                 else:
                     n_ok += 1
+        if "__eq__" in r.get("translated", []) and "__hash__" in r.get("translated", []):
+            # `==` and the hashed key on pairs: the same vector, a respelling of it (other field order), another vector
+            im = core.impl()
+            pairs = []
+            vs_ok = []
+            for s_ in items[: 2500 * scale]:
+                try:
+                    im.cls[v](s_)
+                    vs_ok.append(s_)
+                except Exception:  # noqa
+                    pass
+            for i, s_ in enumerate(vs_ok[:800 * scale]):
+                pf = next((p_ for p_ in core.PREFIX[v] if p_ and s_.startswith(p_)), "")
+                fs = s_[len(pf):].split("/")
+                rng.shuffle(fs)
+                pairs += [(s_, s_), (s_, pf + "/".join(fs)), (s_, vs_ok[(i * 7 + 1) % len(vs_ok)])]
+            try:
+                gote = _run_codedriver(["E%s\t%s\t%s" % (v, core.enc(a), core.enc(b)) for a, b in pairs])
+            except Exception as e:  # noqa
+                gote, pairs = [], []
+                r["validation_note"] = str(e)[:300]
+            for (a, b), g in zip(pairs, gote):
+                try:
+                    oa, ob = im.cls[v](a), im.cls[v](b)
+                    w = "ok\t%s\t%s" % ("true" if oa == ob else "false", oa.clean_vector())
+                    if (hash(oa) == hash(ob)) != (oa.clean_vector() == ob.clean_vector()):
+                        w += "\thash-inconsistent"
+                except Exception as e:  # noqa
+                    w = "EXC %s" % type(e).__name__
+                n_k += 1
+                if g != w:
+                    if len(diffs) < 5:
+                        diffs.append({"input": [a, b], "translated_source": g[:300], "real_code": w[:300], "op": "__eq__/__hash__"})
+                else:
+                    n_ok += 1
         if v == "4" and "as_json" in r.get("translated", []):
             # compute_severity / as_json as translated, on the object the real code scored
             im = core.impl()
